@@ -573,3 +573,61 @@ func BigAuto(t *rapid.T) *Spec {
 	s.Start = 0
 	return s
 }
+
+// ManySyms builds a grammar with more than 64 symbols: 45-60 keyword
+// terminals and 8-20 nonterminals; the start state has a transition on every
+// keyword, so symbol ids that differ by 64 meet in one state.
+func ManySyms(t *rapid.T) *Spec {
+	s := base()
+	nt := rapid.IntRange(45, 60).Draw(t, "nT")
+	nn := rapid.IntRange(8, 20).Draw(t, "nN")
+	for i := 0; i < nt; i++ {
+		s.Terms = append(s.Terms, Term{Name: fmt.Sprintf("K%02d", i), Decl: "token"})
+	}
+	s.NTs = append(s.NTs, NonTerm{Name: "top"})
+	for i := 1; i < nn; i++ {
+		s.NTs = append(s.NTs, NonTerm{Name: fmt.Sprintf("b%02d", i)})
+	}
+	// every body nonterminal: one or two short terminal rules
+	for i := 1; i < nn; i++ {
+		nr := rapid.IntRange(1, 2).Draw(t, "nbody")
+		for r := 0; r < nr; r++ {
+			l := rapid.IntRange(1, 2).Draw(t, "blen")
+			rhs := make([]int, l)
+			for j := range rhs {
+				rhs[j] = rapid.IntRange(0, nt-1).Draw(t, "bt")
+			}
+			s.Rules = append(s.Rules, Rule{LHS: i, RHS: rhs, Prec: -1})
+		}
+	}
+	// top : K_i body_j  for every keyword, and top : b_j K_i for some
+	for i := 0; i < nt; i++ {
+		b := nt + 1 + rapid.IntRange(0, nn-2).Draw(t, "body")
+		s.Rules = append(s.Rules, Rule{LHS: 0, RHS: []int{i, b}, Prec: -1})
+	}
+	for i := 1; i < nn; i++ {
+		if rapid.Bool().Draw(t, "ntfirst") {
+			s.Rules = append(s.Rules, Rule{LHS: 0, RHS: []int{nt + i, rapid.IntRange(0, nt-1).Draw(t, "after")}, Prec: -1})
+		}
+	}
+	s.Start = 0
+	return s
+}
+
+// HugeRule adds one rule with 260-400 right-hand-side symbols to a small
+// productive grammar ("rules of every length").
+func HugeRule(t *rapid.T) *Spec {
+	s := Productive(t, Cfg{MaxT: 3, MaxN: 2, MaxR: 3, MaxLen: 2, Lits: false})
+	k := rapid.IntRange(260, 400).Draw(t, "hugelen")
+	rhs := make([]int, k)
+	nt := len(s.Terms)
+	for j := range rhs {
+		if rapid.IntRange(0, 40).Draw(t, "hnt") == 0 {
+			rhs[j] = nt + rapid.IntRange(0, len(s.NTs)-1).Draw(t, "hn")
+		} else {
+			rhs[j] = rapid.IntRange(0, nt-1).Draw(t, "ht")
+		}
+	}
+	s.Rules = append(s.Rules, Rule{LHS: s.Start, RHS: rhs, Prec: -1})
+	return s
+}
